@@ -280,7 +280,7 @@ def decompress_dispatch(ctx, mir, stats):
 # generic: no arithmetic-overflow / bounds assert of a function can fail when
 # wire-derived values are unconstrained (call results and loads = fresh symbols)
 # --------------------------------------------------------------------------
-def fn_asserts(fn_regex, what, call_model=None, loop_bound=1, native=None, only_msgs=r"attempt to|index out of bounds|divide|remainder"):
+def fn_asserts(fn_regex, what, call_model=None, loop_bound=1, native=None, only_msgs=r"attempt to|index out of bounds|divide|remainder", assume=None):
     def fn(ctx, mir, stats):
         f = find_fn(mir, fn_regex)
         se = SymExec(f, stats, call_model=call_model, loop_bound=loop_bound, max_paths=20000).run()
@@ -293,7 +293,7 @@ def fn_asserts(fn_regex, what, call_model=None, loop_bound=1, native=None, only_
             if cond is None:
                 verdict, mdl = "sat", {}
             else:
-                verdict, mdl, smt = se.check(p, [z3.Not(cond)], "assert")
+                verdict, mdl, smt = se.check(p, [z3.Not(cond)] + (assume(se, p) if assume else []), "assert")
             if verdict == "unsat" and key in seen:
                 continue
             if verdict == "sat" and (key, "bad") in seen:
@@ -1044,3 +1044,136 @@ def mode_flags(ctx, mir, stats):
     if k == 0:
         raise Inconclusive("ENCODING-FAILED: rdp_infos flag word not found")
     return obs
+
+
+# --------------------------------------------------------------------------
+# C07: potentially panicking sites on the NLA read path
+# --------------------------------------------------------------------------
+PANIC_CALLS = r"core::panicking::|begin_panic|::unwrap$|::expect$|as Index<|as IndexMut<|unwrap_failed|slice_index|panic_fmt|panic_display|::unwrap_or_else::<.*panic"
+LAYOUT_LOOKUP = r"^<IndexMap<String, Box<dyn (Message|ASN1)>> as Index<&str>>::index$"
+
+
+def panic_sites(targets, natives=None):
+    """targets: list of (fn regex, [(callee regex, max count, justification)]).
+    Every reachable (path-feasible) call that can panic on hostile input must be on the
+    function's allow-list. Lookups of constant field names in a message layout built by the
+    same code (`msg["Field"]`) are a separate class: the key set is fixed at construction."""
+    natives = natives or {}
+
+    def fn(ctx, mir, stats):
+        obs = []
+        for rx, allow in targets:
+            for f in find_fn(mir, rx, unique=False):
+                se = SymExec(f, stats, loop_bound=1, max_paths=20000).run()
+                sites = {}
+                for p in se.finished + [a[0] for a in se.asserts]:
+                    for ev in p.events:
+                        if ev[0] == "call" and re.search(PANIC_CALLS, ev[2]) and not re.search(LAYOUT_LOOKUP, ev[2]):
+                            sites.setdefault((ev[1], ev[2]), p)
+                # abandoned (panicking / diverging) calls are not on finished paths: add by CFG reachability
+                for n in f.order:
+                    b = f.blocks[n]
+                    if b.cleanup or not b.t or b.t["kind"] != "call":
+                        continue
+                    if re.search(PANIC_CALLS, b.t["func"]) and not re.search(LAYOUT_LOOKUP, b.t["func"]) and (n, b.t["func"]) not in sites:
+                        if fp_reachable(f, f.order[0], n, stats):
+                            sites[(n, b.t["func"])] = None
+                used = {}
+                for (bn, callee), p in sorted(sites.items()):
+                    ok = False
+                    why = ""
+                    for arx, mx, just in allow:
+                        if re.search(arx, callee):
+                            used[arx] = used.get(arx, 0) + 1
+                            if used[arx] <= mx:
+                                ok, why = True, just
+                            break
+                    o = {"id": "%s:%s:%s" % (f.name[-45:], bn, callee[:50]), "ok": ok, "functions": [f.name],
+                         "detail": ("allowed: %s" % why) if ok else "a call that panics on hostile input is reachable: %s in %s" % (callee, f.name),
+                         "where": "%s %s" % (f.name, bn), "path": p.trace if p else None}
+                    if not ok:
+                        for nrx, nat in natives.items():
+                            if re.search(nrx, f.name):
+                                o["native"] = nat
+                    obs.append(o)
+                if not sites:
+                    obs.append({"id": "%s:no-panic-sites" % f.name[-45:], "ok": True, "functions": [f.name],
+                                "detail": "no reachable unwrap/expect/index/panic call in %s (%d paths)" % (f.name, len(se.finished))})
+        return obs
+    return fn
+
+
+def _native(test, path, body):
+    return {"test": test, "files": {path: "\n#[cfg(test)]\nmod %s_mod {\n    use super::*;\n    #[test]\n    fn %s() {\n%s\n    }\n}\n" % (test, test, body)}}
+
+
+NLA_NATIVES = {
+    r"read_challenge_message$": _native("verif_replay_ntlm_challenge", "src/nla/ntlm.rs", """
+        // CHALLENGE without version: 48-byte header, TargetInfo = one EOL pair (no timestamp), then an out-of-range offset
+        let mut base = b"NTLMSSP\\x00".to_vec();
+        base.extend_from_slice(&[2, 0, 0, 0,  0, 0, 0, 0, 0, 0, 0, 0,  0, 0, 0, 0]);
+        base.extend_from_slice(&[0; 16]);
+        let mut a = base.clone(); a.extend_from_slice(&[4, 0, 4, 0, 48, 0, 0, 0,  0, 0, 0, 0]);
+        let mut b = base.clone(); b.extend_from_slice(&[4, 0, 4, 0, 0xff, 0xff, 0xff, 0xff]);
+        let mut c = base.clone(); c.extend_from_slice(&[4, 0, 4, 0, 1, 0, 0, 0]);
+        for m in [a, b, c].iter() {
+            let mut n = Ntlm::new("".to_string(), "".to_string(), "".to_string());
+            n.create_negotiate_message().unwrap();
+            let _ = n.read_challenge_message(m);
+        }"""),
+    r"^get_payload_field$": _native("verif_replay_ntlm_payload", "src/nla/ntlm.rs", """
+        let mut m = challenge_message();
+        let mut bytes = b"NTLMSSP\\x00".to_vec();
+        bytes.extend_from_slice(&[2, 0, 0, 0,  0, 0, 0, 0, 0, 0, 0, 0,  0, 0, 0, 0]);
+        bytes.extend_from_slice(&[0; 16]);
+        bytes.extend_from_slice(&[0, 0, 0, 0, 0, 0, 0, 0]);
+        m.read(&mut Cursor::new(bytes)).unwrap();
+        let _ = get_payload_field(&m, 4, 1);
+        let _ = get_payload_field(&m, 4, 48);
+        let _ = get_payload_field(&m, 0xffff, 0xffff_ffff);"""),
+    r"^read_ts_server_challenge$": _native("verif_replay_cssp_empty_tokens", "src/nla/cssp.rs", """
+        // TSRequest { version 2, negoTokens: empty SEQUENCE OF }
+        let _ = read_ts_server_challenge(&[0x30, 0x09, 0xa0, 0x03, 0x02, 0x01, 0x02, 0xa1, 0x02, 0x30, 0x00]);"""),
+    r"^read_public_certificate$": _native("verif_replay_cssp_bad_cert", "src/nla/cssp.rs", """
+        let r = read_public_certificate(&[0x30, 0x00]);
+        assert!(r.is_err());"""),
+}
+
+NLA_TARGETS = [
+    (r"^read_ts_server_challenge$", []),
+    (r"^read_ts_validate$", []),
+    (r"^read_public_certificate$", []),
+    (r"ntlm::<impl at src/nla/ntlm\.rs[^>]*>::read_challenge_message$", [
+        (r"Option::<&Vec<u8>>::unwrap$", 3, "exported_session_key / negotiate_message are set by this very call sequence (create_negotiate_message precedes; key assigned a few lines above)")]),
+    (r"^get_payload_field$", []),
+    (r"^read_target_info$", []),
+    (r"ntlm::<impl at src/nla/ntlm\.rs[^>]*>::gss_unwrapex$", [
+        (r"<Vec<u8> as Index<std::ops::Range<usize>>>::index$", 1, "computed_checksum[0..8] slices the 16-byte HMAC-MD5 output")]),
+]
+
+
+def ntlm_payload_model(se, path, t, args):
+    if re.search(r"as Message>::length$", t["func"]):
+        if "message_length" not in path.env:
+            path.env["message_length"] = se.fresh("message_length", "u64")
+        return path.env["message_length"]
+    return None
+
+
+def ntlm_payload_assume(se, p):
+    """The Payload block is a field of the message: message.length() >= payload.len()."""
+    L = p.env.get("message_length")
+    out = []
+    for k, v in p.env.items():
+        if k.startswith("len(") and L is not None and v is not None and v.size() == 64:
+            out.append(z3.UGE(L, v))
+    return out
+
+
+def multi(*fns):
+    def fn(ctx, mir, stats):
+        obs = []
+        for g in fns:
+            obs += g(ctx, mir, stats)
+        return obs
+    return fn
